@@ -276,19 +276,6 @@ theorem only_the_head_runs (q q' : FdQueue) (ev : Event) (id : Id) (h : q.popInt
   obtain ⟨d, h1, h2, _⟩ := FdQueue.popInterest_some h
   exact ⟨d, h1, h2⟩
 
-theorem sublist_cons_mem {α : Type} {x y : α} {rest : List α} : ∀ {l : List α},
-    (x :: rest).Sublist l → y ∈ rest → ∃ l1 l2, l = l1 ++ x :: l2 ∧ y ∈ l2 := by
-  intro l
-  induction l with
-  | nil => intro h; cases h
-  | cons a l ih =>
-    intro h hy
-    cases h with
-    | cons _ h' =>
-      obtain ⟨l1, l2, e, hm⟩ := ih h' hy
-      exact ⟨a :: l1, l2, by rw [e]; rfl, hm⟩
-    | cons_cons _ h' => exact ⟨[], l, rfl, h'.subset hy⟩
-
 /-- hence the operation at the head was submitted before everything behind it -/
 theorem head_was_submitted_first (ops : Ops W) {s : St W} (h : Reachable ops s) (fd : Fd) (d : Dir)
     (x y : Id) (rest : List Id) (hq : s.queue fd d = x :: rest) (hy : y ∈ rest) :
@@ -354,10 +341,28 @@ theorem wake_only_on_completion (ops : Ops W) {s : St W} (h : Reachable ops s) (
   have h2 := hinv.finLen id
   exact ⟨h1, by omega, hinv.wakeReady⟩
 
+/-- (f) over whole runs.  `hadWaker id` (ghost, written only by `update_waker` on a pending slot, never
+    cleared) = "a waker was registered for `id` before it completed".  In every reachable state:
+    while the operation is incomplete nobody was woken and the slot holds a waker iff one was registered;
+    once it is complete the registered waker has been woken exactly once — and if none was registered,
+    nobody.  So a waker registered before completion is woken exactly when the slot becomes `Ready`. -/
+theorem registered_waker_woken_exactly_on_completion (ops : Ops W) {s : St W} (h : Reachable ops s) (id : Id) :
+    (s.keys.fin id = [] → s.keys.woken id = 0) ∧
+    (s.keys.fin id ≠ [] → s.keys.woken id = if s.keys.hadWaker id then 1 else 0) ∧
+    (∀ w, s.keys.slot id = .pending w → w.isSome = s.keys.hadWaker id) := by
+  have hinv := (reachable_inv h).k
+  refine ⟨?_, hinv.wokenEq id, hinv.wakerReg id⟩
+  intro hf
+  have := hinv.wokenLe id
+  rw [hf] at this
+  simpa using this
+
 /-- `Proactor::update_waker` on a pending operation registers the waker (so the completion will wake it) -/
 theorem update_waker_registers (ks : Keys) (id : Id) (w : WakerId) (w0 : Option WakerId)
-    (h : ks.slot id = .pending w0) : (ks.setWaker id w).slot id = .pending (some w) := by
-  rw [setWaker_slot]; simp [h, Slot.setWaker]
+    (h : ks.slot id = .pending w0) :
+    (ks.setWaker id w).slot id = .pending (some w) ∧ (ks.setWaker id w).hadWaker id = true := by
+  refine ⟨by rw [setWaker_slot]; simp [h, Slot.setWaker], ?_⟩
+  rw [setWaker_hadWaker]; simp [h]
 
 section futures
 variable {σ : Type} (push : σ → Id → σ × Option Res) (getK : σ → Keys) (setK : σ → Keys → σ)
@@ -377,7 +382,7 @@ theorem submit_pending_registers_waker (hlens : ∀ s ks, getK (setK s ks) = ks)
     unfold pollTask at hp
     rw [pop_not_ready ks id (by intro r; rw [hs]; simp)] at hp
     simp only [Prod.mk.injEq, and_true] at hp
-    rw [← hp]; exact update_waker_registers ks id w w0 hs
+    rw [← hp]; exact (update_waker_registers ks id w w0 hs).1
   have hpt' : ∀ ks (w0 : Option WakerId), ks.slot id = .pending w0 → (pollTask ks id w).2 = none := by
     intro ks w0 hs
     unfold pollTask
@@ -469,6 +474,18 @@ theorem iour_own_result {r : Ring} (h : RReachable r) (id : Id) (res : Res) (ks'
     simp only [Prod.mk.injEq, Option.some.injEq] at hp
     obtain ⟨_, rfl⟩ := hp
     exact hk.own_result hs
+
+/-- (f) on io_uring: same statement (multishot `wake_by_ref` nudges are counted separately in `nudged`) -/
+theorem iour_registered_waker_woken_exactly_on_completion {r : Ring} (h : RReachable r) (id : Id) :
+    (r.keys.fin id = [] → r.keys.woken id = 0) ∧
+    (r.keys.fin id ≠ [] → r.keys.woken id = if r.keys.hadWaker id then 1 else 0) ∧
+    (∀ w, r.keys.slot id = .pending w → w.isSome = r.keys.hadWaker id) := by
+  have hk := (rreachable_inv h).k
+  refine ⟨?_, hk.wokenEq id, hk.wakerReg id⟩
+  intro hf
+  have := hk.wokenLe id
+  rw [hf] at this
+  simpa using this
 
 theorem iour_exactly_once {r : Ring} (h : RReachable r) (id : Id) :
     (r.keys.fin id).length ≤ 1 ∧ (r.keys.dlv id).length ≤ 1 ∧
